@@ -469,6 +469,26 @@ func raceScenarios() []raceScenario {
 			vsched.Quiesce()
 		}, true})
 	}
+	// (v'') the application publishes and subscribes in-process while it closes the server
+	// from another goroutine
+	out = append(out, raceScenario{"Server.Close || in-process Publish + Subscribe", func() {
+		t := newTD()
+		s := t.connect("S", 0, 65535, false)
+		t.subscribe("S", "t", 1)
+		s.ended = true
+		if vsched.Failed() {
+			return
+		}
+		vsched.Mark()
+		vsched.Go("closer", func() { t.w.Svr.Close() })
+		vsched.Go("in-process", func() {
+			t.w.Svr.Publish(localPublish("t", 1, true, "late"))
+			cb := service.OnPublishFunc(func(m *message.PublishMessage) error { return nil })
+			t.w.Svr.Subscribe("t/#", 1, &cb)
+			t.w.Svr.Publish(localPublish("t/x", 0, false, "later"))
+		})
+		vsched.Quiesce()
+	}, true})
 	// (xii) client role: the processor acknowledges incoming QoS 1 publishes (a producer of the
 	// outgoing ring) while the application publishes and then calls Disconnect
 	out = append(out, raceScenario{"client: incoming QoS 1 publishes || Publish + Disconnect", func() {
